@@ -80,6 +80,11 @@ YearsRounded(f, r) ==
   /\ Len(f.years) = Len(r.years)
   /\ \A n \in DOMAIN f.years : f.years[n][1] = r.years[n][1] /\ Rounded(f.years[n][2], r.years[n][2])
   /\ Rounded(f.total, r.total)
+\* rounding never feeds back: the yearly figure shown with default options is the EXACT sum of the year's
+\* full-precision capital gains, rounded once (either neighbour when that sum is within 1e-20 of a half cent)
+ShownOf(x, shown) == REq(shown, RRoundCents(x)) \/ RClose(RAbs(RSub(shown, x)), RDec(5, 3), RDec(1, 20))
+YearsShownOK(f, r) ==
+  \A n \in DOMAIN r.years : r.years[n][1] \in FooterYears(f) /\ ShownOf(YearSum(f, r.years[n][1]), V(r.years[n][2]))
 \* (rows of the two renderings are matched like TableIsLedger matches rows and deltas)
 TableRounded(f, r) ==
   LET fr == IF Clean(f) THEN f.rows ELSE DropTrailingSplits(f.rows)
@@ -187,6 +192,8 @@ Judge(rec) ==
   LET b3 == FirstBadIn(DOMAIN F.secs, LAMBDA n : TableRounded(F.secs[n], R.secs[n])) IN
   Chk(b3 = 0, "rounding", "a displayed figure is not the full-precision figure rounded half away from zero: " \o F.secs[IF b3 = 0 THEN 1 ELSE b3].sec,
   Chk(YearsRounded(F.agg, R.agg), "rounding", "aggregate table: displayed figure is not the rounded full-precision figure",
+  LET b4 == FirstBadIn(DOMAIN F.secs, LAMBDA n : ~Clean(F.secs[n]) \/ YearsShownOK(F.secs[n], R.secs[n])) IN
+  Chk(b4 = 0, "rounding", "a displayed yearly figure is not the sum of that year's full-precision gains rounded to cents (an intermediate figure was rounded): " \o F.secs[IF b4 = 0 THEN 1 ELSE b4].sec,
   \* C17
   IF ~F.costs.has \/ ~allClean THEN OkV ELSE
   LET E == CostEvents(rec) IN
@@ -194,7 +201,7 @@ Judge(rec) ==
   Chk(TotalTableOK(E, F.costs.total), "costs", "total-costs table differs from the maximum cost held per day",
   Chk(YearlyTableOK(E, F.costs.yearly), "costs", "yearly max-costs table differs",
   Chk(Len(F.costs.total.notes) = IgnoredCount(rec), "costs", "ignored transactions of other affiliates are not all listed",
-  OkV)))))))))))))))))
+  OkV))))))))))))))))))
 
 Init == l = 1 /\ tally = [ok |-> 0, fail |-> 0, ambig |-> 0, skip |-> 0, steps |-> 0]
 Next ==
